@@ -96,7 +96,8 @@ def tlc(spec, cfg, scratch, env=None, workers=None, simulate=None,
         cfg = SPEC / "cfg" / cfg
     scratch = pathlib.Path(scratch)
     meta = pathlib.Path(tempfile.mkdtemp(prefix="tlcmeta_", dir=scratch))
-    cmd = ["java", "-XX:+UseParallelGC", "-Xss16m"]
+    cmd = ["java", "-XX:+UseParallelGC", "-Xss16m",
+           f"-Djava.io.tmpdir={scratch}"]
     if dfs:
         cmd.append("-Dtlc2.tool.queue.IStateQueue=StateDeque")
     cmd += list(jvm_opts)
@@ -210,6 +211,10 @@ class Ctx:
         base = os.environ.get("VERIF_SCRATCH") or tempfile.gettempdir()
         self.scratch = pathlib.Path(tempfile.mkdtemp(
             prefix=f"nanite_verif_{pid}_", dir=base))
+        # every temporary file of this process and of its workers lives in
+        # the scratch directory, which is removed when the check ends
+        os.environ["TMPDIR"] = str(self.scratch)
+        tempfile.tempdir = str(self.scratch)
         self.candidates = []     # (fingerprint, what, replay_obj)
         self.notes = []
         self.known = load_known(pid)
